@@ -42,7 +42,32 @@ def gen(ctx: common.Ctx, n: int) -> Iterator[dict[str, Any]]:
                "_case": c.id, "_ops": ops}
 
 
+def _simplified(case: dict[str, Any]) -> bool:
+    """mypy skips expensive message details (suggestions, notes) on lines that carry any ignore comment
+    (Errors.prefer_simple_messages): the surviving diagnostic then has the same code and a shorter text."""
+    import ast as _ast
+    gone = [b for b in case["bad"] if b.startswith("unrelated diagnostic disappeared: ")]
+    new = [b for b in case["bad"] if b.startswith("new diagnostic appeared: ")]
+    if case["kind"] != "ignore" or not case["codes"] or len(gone) + len(new) != len(case["bad"]) or not new:
+        return False
+    try:
+        g = [_ast.literal_eval(b.split(": ", 1)[1]) for b in gone]
+        n = [_ast.literal_eval(b.split(": ", 1)[1]) for b in new]
+    except Exception:
+        return False
+    code = lambda m: (re.findall(r"\[([a-z0-9-]+)\]$", m) or [""])[0]
+    for y in n:
+        if y[1] != case["line"]:
+            return False
+        if not any(x[:3] == y[:3] and code(x[3]) == code(y[3]) and len(y[3]) < len(x[3]) for x in g):
+            return False
+    # notes that belonged to the detailed message may disappear with it
+    return all(x[1] == case["line"] for x in g)
+
+
 def mech(bad: str, case: dict[str, Any]) -> str:
+    if _simplified(case):
+        return "ignore:coded:message-simplified-on-line-with-nonmatching-ignore(prefer_simple_messages)"
     kind = case["kind"] + (":bare" if case["kind"] == "ignore" and not case["codes"] else ":coded" if case["kind"] == "ignore" else "")
     what = bad.split(":")[0]
     m = re.search(r"'(error|note|warning)'", bad)
